@@ -18,7 +18,7 @@ ASSUMPTIONS = ['data excludes the acknowledgement\'s own delimiters ~ * : ^ (tha
                'multi-interchange inputs share sender/receiver (which interchange a single 997 should address is not defined by the property)',
                'AK902 is compared only when GE01 is a canonical number; itemisation is checked tree => acknowledgement, not the converse',
                'a logged ERROR record counts as "reported"']
-REQUIRED_COUNTERS = ['docs:set-header-element-finding', 'docs:hl-with-wrong-number-and-wrong-element', 'injected-positions-checked', 'docs:two-elements-of-one-data-element-wrong-in-one-segment', 'docs:composite-and-one-of-its-components-wrong', 'envelope-discrepancies-checked', 'reader-findings-checked', 'docs:A', 'docs:B', 'docs:with-errors', 'docs:valid', 'ak2-checked', 'ak3-checked', 'ak4-checked', 'ak9-checked', 'acks:997', 'acks:999', 'addressing:checked:qualifiers-differ']
+REQUIRED_COUNTERS = ['docs:finding-booked-after-the-trailer', 'docs:set-header-element-finding', 'docs:hl-with-wrong-number-and-wrong-element', 'injected-positions-checked', 'docs:two-elements-of-one-data-element-wrong-in-one-segment', 'docs:composite-and-one-of-its-components-wrong', 'envelope-discrepancies-checked', 'reader-findings-checked', 'docs:A', 'docs:B', 'docs:with-errors', 'docs:valid', 'ak2-checked', 'ak3-checked', 'ak4-checked', 'ak9-checked', 'acks:997', 'acks:999', 'addressing:checked:qualifiers-differ']
 MIN_CASES = {'quick': 700, 'thorough': 20000}
 WATCHDOG_S = {'quick': 1200, 'thorough': 7200}
 
@@ -558,6 +558,37 @@ def run(ctx):
             ctx.count('docs:A')
         n += 1
         ctx.sample({'map': e['file'], 'faults': kinds, 'text_head': text[:500]})
+    # directed: otherwise clean documents with ONE thing wrong that is found only after a set's trailer has been seen - a stray segment between SE and the
+    # next ST / the GE, or an SE whose count is written '+n' (an element finding on the trailer itself): verdict, set / group status and totals
+    # must all know about it
+    nd = (60 if ctx.quick else 1500) // ctx.nshards + 1
+    for t in range(nd):
+        rng = ctx.sub_rng('c05late', ctx.shard, t)
+        e = entries[(t * 5 + ctx.shard) % len(entries)]
+        try:
+            doc = gen_doc.gen_document(e, rng.randrange(1 << 30), n_st=2, n_gs=rng.choice([1, 2]), n_isa=1, charset='E', rich=False, fill=0.3, opt_prob=0.4, maxrep=1)
+        except gen_doc.GenFailed:
+            continue
+        if len(doc.recs) > 300:
+            continue
+        lines = doc.text().split('~\n')
+        ses = [i for i, l in enumerate(lines) if l.startswith('SE*')]
+        if not ses:
+            continue
+        j = rng.choice(ses)
+        if rng.random() < 0.6:
+            lines.insert(j + 1, rng.choice(['REF*XX*1', 'ZZZ*1', 'NM1*85*2*X']))
+            kind = 'stray-segment-after-SE'
+        else:
+            p_ = lines[j].split('*')
+            p_[1] = '+' + p_[1]
+            lines[j] = '*'.join(p_)
+            kind = 'SE01-with-plus-sign'
+        text = '~\n'.join(lines)
+        ctx.count('docs:finding-booked-after-the-trailer')
+        judge(ctx, text, {'map': e['file'], 'faults': ['directed:' + kind], 'charset': 'E', 'text': text if len(text) < 150000 else None, 'k': ['c05late', ctx.shard, t]}, False, sigs, e['file'])
+        ctx.count('docs:B')
+        n += 1
     ctx.case(n=n, sigs=sorted(sigs))
 
 
